@@ -81,3 +81,85 @@ def expect_line(ex):
     for d, v in ex:
         toks.append("-" if v is None else "m" if v == "miss" else "%d/%d" % (v.numerator, v.denominator))
     return "expect " + " ".join(toks)
+
+
+# ------------------------------------------------------------------------------------------------------------------
+# Tied stream: templates that exercise every branch of the bit-map head of bufr_apply_tables2node, well formed or
+# not, over arbitrary Section 4 bits.  No expectation is computed here: implementation and Lean model (BufrModel/
+# Bitmap.lean) are compared node by node (`dd.list`: encoding and value type of every marker; `dd.vals`).
+
+CLASS33 = [33007, 33003, 33002]
+STARTS = [222000, 223000, 224000, 225000, 232000]
+MARKERS = {223000: 223255, 224000: 224255, 225000: 225255, 232000: 232255, 222000: 224255}
+
+def wild_template(rng, B, D=None):
+    pool = [d for d in ELEMENTS if d in B]
+    n = rng.choice([0, 1, 2, 3, 4, 6])
+    head = []
+    for _ in range(n):
+        r = rng.random()
+        if r < 0.12:
+            head += [201000 + rng.choice([126, 130, 132]), rng.choice(pool), 201000]
+        elif r < 0.2:
+            head += [204000 + rng.choice([1, 3, 8]), 31021, rng.choice(pool), 204000]
+        elif r < 0.3:
+            k = rng.choice([1, 2]); head += [100000 + k * 1000 + rng.choice([1, 2])] + [rng.choice(pool) for _ in range(k)]
+        elif r < 0.36:
+            head += [101000, 31001, rng.choice(pool)]
+        elif r < 0.42 and D:
+            cand = [d for d in D if 1 <= len(D[d]) <= 6 and all(m // 100000 == 0 and m in B for m in D[d])]
+            head += [rng.choice(cand)] if cand else [rng.choice(pool)]
+        elif r < 0.47:
+            head += [205000 + rng.choice([2, 4])]
+        else:
+            head.append(rng.choice(pool))
+    nel = rng.choice([n, n, n + 1, max(0, n - 1), rng.randrange(0, 9)])      # announced bit-map length
+    start = rng.choice(STARTS + [224000, 224000, 223000, 222000])
+    t = list(head)
+    r = rng.random()
+    if r < 0.08:
+        t += [236000]                                                   # a bit-map without a start operator
+    elif r < 0.16:
+        # the bit-map is announced before its start operator, which sits inside a (delayed) replication
+        t += [236000, rng.choice([101000, 102000, 101002]), 31001][:2 + (1 if rng.random() < 0.8 else 0)] + [start]
+    elif r < 0.2:
+        t += [101000, 31001, start, 236000]
+    else:
+        t += [start] + ([236000] if rng.random() < 0.9 else [237000])
+    if nel > 0:
+        if rng.random() < 0.2: t += [101000, 31001, 31031]
+        else: t += [101000 + nel, 31031]
+    info = rng.sample([1031, 1032, 8023, 1033], rng.choice([0, 1, 2]))
+    t += [d for d in info if d in B]
+    k = rng.choice([0, 1, 2, 3, nel])
+    marker = MARKERS[start]
+    r = rng.random()
+    if start == 222000 and r < 0.7:
+        q = rng.choice(CLASS33)
+        if k > 0: t += [101000 + k, q] if rng.random() < 0.8 else [q] * k
+    elif r < 0.6:
+        if k > 0: t += [101000 + k, marker]
+    elif r < 0.75:
+        t += [marker] * k                                               # markers outside any replication
+    elif r < 0.85:
+        t += [101000, 31001, marker]
+    else:
+        if k > 0: t += [101000 + k, marker, 101000 + k, marker]         # two groups
+    r = rng.random()
+    if r < 0.15: t += [rng.choice(STARTS), 237000, 101001, marker]
+    elif r < 0.25: t += [235000, rng.choice(pool)]
+    elif r < 0.35: t += [224000, 236000, 101002, 31031, 101001, 224255]  # a second bit-map
+    elif r < 0.5: t += [rng.choice(pool)]
+    return t
+
+def build_wild(rng, B, D=None, compressed=False):
+    t = wild_template(rng, B, D)
+    nsub = rng.choice([1, 1, 2, 3])
+    n = rng.choice([0, 3, 10, 40, 80, 160])
+    mode = rng.random()
+    if mode < 0.3: data = bytes(n)
+    elif mode < 0.4: data = bytes([255]) * n
+    elif mode < 0.7: data = bytes(rng.choice([0, 0, 0, 1, 2, 64, 128, 255, rng.randrange(256)]) for _ in range(n))
+    else: data = bytes(rng.randrange(256) for _ in range(n))
+    ed = rng.choice([3, 4, 4])
+    return frame.frame(ed, 128 | (64 if compressed else 0), nsub, t, data), t, nsub
